@@ -1212,7 +1212,7 @@ func genRuleLine(rng *rand.Rand, wantValid bool) RCaseR {
 			}
 		}
 		for k := rng.Intn(3); k > 0; k-- {
-			add(Occ{Flag: "k", Value: []string{"key1", "k2,k3", "a-b"}[rng.Intn(3)]})
+			add(Occ{Flag: "k", Value: []string{"key1", "k2,k3", "a-b", "root commands", " padded ", "x , y z"}[rng.Intn(6)]})
 		}
 	case x == 1 && !wantValid: // delete all
 		add(Occ{Flag: "D"})
@@ -1335,7 +1335,7 @@ func genRuleLine(rng *rand.Rand, wantValid bool) RCaseR {
 			add(Occ{Flag: "S", Value: strings.Join(items, ","), Eq: eq()})
 		}
 		for k := rng.Intn(3); k > 0; k-- {
-			add(Occ{Flag: "k", Value: []string{"key1", "k2,k3", "a-b", strings.Repeat("z", 100), "cl\u00e9,\u65e5"}[rng.Intn(5)]})
+			add(Occ{Flag: "k", Value: []string{"key1", "k2,k3", "a-b", strings.Repeat("z", 100), "cl\u00e9,\u65e5", "root commands", " padded\t", "x , y z", "a\tb"}[rng.Intn(9)]})
 			if list == "exclude" {
 				c.Valid = false // the library does not allow a key on the exclude list
 			}
